@@ -100,6 +100,7 @@ def apply_step(coin, tx, mp, cmd):
         x, y = tx.txs_in[i], tx.txs_in[j]
         x.script, y.script = y.script, x.script
         x.witness, y.witness = y.witness, x.witness
+        mp[i], mp[j] = mp[j], mp[i]      # the unlocking data (the signatures) change places
     elif k == "delout":
         del tx.txs_out[int(a[1])]
     elif k == "insout":
@@ -117,25 +118,117 @@ def apply_step(coin, tx, mp, cmd):
             tx.unspents[i] = T.TxOut(int(v), parse_bytes(sc))
     elif k == "usdrop":
         tx.unspents.pop()
+    elif k in ("uskey", "usnop", "uspre"):
+        i = int(a[1])
+        u = tx.unspents[i]
+        sc = bytes(u.script)
+        if k == "uskey":
+            sc = flip_data_bit(sc, int(a[2]))
+        elif k == "usnop":
+            sc = sc + b"\x61"
+        else:
+            sc = b"\x61" + sc
+        tx.unspents[i] = T.TxOut(u.coin_value, sc)
     else:
         raise ValueError("unknown mutation " + cmd)
 
 
-def undetermined(tx, mp, signed):
-    """positions whose own unlocking data or spent script differ from what was signed: their verdict depends on the
-    interpreter, not on a commitment"""
-    res = set()
-    for j, t in enumerate(tx.txs_in):
-        k = mp[j]
-        if k is None or j >= len(tx.unspents) or tx.unspents[j] is None:
-            continue
-        sol, wit, spent = signed[k]
-        if bytes(t.script) != sol or [bytes(w) for w in t.witness] != wit or bytes(tx.unspents[j].script) != spent:
-            res.add(j)
+# ---------------------------------------------------------------- standard spent scripts and their data pushes
+
+def spk_template(s: bytes):
+    """(kind, [(start, end)]): the template of a spent script and the byte ranges of its data pushes"""
+    n = len(s)
+    if n == 25 and s[:3] == b"\x76\xa9\x14" and s[23:] == b"\x88\xac":
+        return "p2pkh", [(3, 23)]
+    if n == 23 and s[:2] == b"\xa9\x14" and s[22:] == b"\x87":
+        return "p2sh", [(2, 22)]
+    if n == 22 and s[:2] == b"\x00\x14":
+        return "p2wpkh", [(2, 22)]
+    if n == 34 and s[:2] == b"\x00\x20":
+        return "p2wsh", [(2, 34)]
+    if ((n == 35 and s[0] == 33) or (n == 67 and s[0] == 65)) and s[-1] == 0xAC:
+        return "p2pk", [(1, n - 1)]
+    if n >= 3 and s[-1] == 0xAE and 0x51 <= s[0] <= 0x60 and 0x51 <= s[-2] <= 0x60:
+        pos, regions = 1, []
+        while pos < n - 2:
+            ln = s[pos]
+            if ln not in (33, 65) or pos + 1 + ln > n - 2:
+                return "other", []
+            regions.append((pos + 1, pos + 1 + ln))
+            pos += 1 + ln
+        if len(regions) == s[-2] - 0x50 and s[0] <= s[-2]:
+            return "multisig", regions
+    return "other", []
+
+
+def data_positions(s: bytes):
+    _k, regions = spk_template(s)
+    return [i for i in range(len(s)) if any(a <= i < b for a, b in regions)]
+
+
+def data_diff_only(old: bytes, new: bytes) -> bool:
+    """`new` has the template of `old` and differs from it, inside the data pushes only"""
+    if len(old) != len(new) or old == new:
+        return False
+    inside = set(data_positions(old))
+    return all(i in inside or old[i] == new[i] for i in range(len(old)))
+
+
+def flip_data_bit(s: bytes, bit: int) -> bytes:
+    pos = data_positions(s)
+    if not pos:
+        raise ValueError("no data push in this spent script")
+    b = bit % (8 * len(pos))
+    out = bytearray(s)
+    out[pos[b // 8]] ^= 1 << (b % 8)
+    return bytes(out)
+
+
+def signed_info(coin, f0, us0, meta):
+    """per signed input: (scriptSig, witness, spent script, [reference preimage per hash type], (witness closure?, code, hash types))"""
+    res = []
+    for k0 in range(len(f0[2])):
+        w, code, hts = meta[k0]
+        spent = None if (k0 >= len(us0) or us0[k0] is None) else us0[k0][1]
+        res.append((f0[2][k0][2], list(f0[2][k0][4]), spent, [ref_preimage(coin, f0, us0, w, code, k0, h) for h in hts], (w, code, hts)))
     return res
 
 
-def verdicts_of(tx, mask=()):
+def kept(coin, f, us, j, info, pres, code):
+    w, _code, hts = info
+    return all(p is not None and p != "refused" and ref_preimage(coin, f, us, w, code, j, h) == p for h, p in zip(hts, pres))
+
+
+def expected(coin, signed, f, us, mp):
+    """what the hash types dictate for every position of the current state (fields f, unspents us, mp[j] = index of the
+    signed input whose unlocking data sits at j): '1' / '0', or '?' where no commitment decides"""
+    exp = []
+    for j in range(len(f[2])):
+        e = "0"
+        if mp[j] is not None and j < len(us) and us[j] is not None:
+            sol, wit, spent, pres, info = signed[mp[j]]
+            w, code, _hts = info
+            new = us[j][1]
+            if not (f[2][j][2] == sol and list(f[2][j][4]) == list(wit)) or spent is None:
+                e = "?"
+            elif new == spent:
+                e = "1" if kept(coin, f, us, j, info, pres, code) else "0"
+            else:
+                kind, _r = spk_template(spent)
+                data_only = data_diff_only(spent, new)
+                if kind in ("p2pkh", "p2sh", "p2wpkh", "p2wsh") and data_only:
+                    e = "0"       # the unlocking data no longer hashes to what the spent script says
+                elif (not w) and code == spent and kind in ("p2pkh", "p2pk", "multisig") and (
+                        data_only or new == spent + b"\x61" or new == b"\x61" + spent):
+                    # the spent script is the script code: the signatures commit to the new one
+                    e = "?" if kept(coin, f, us, j, info, pres, new) else "0"
+                else:
+                    e = "?"
+        exp.append(e)
+    return exp
+
+
+def verdicts_of(tx, mask=(), count=True):
     out = []
     for i in range(len(tx.txs_in)):
         try:
@@ -143,6 +236,8 @@ def verdicts_of(tx, mask=()):
         except Exception:  # noqa: BLE001
             r = "E"
         out.append("?" if (i in mask and r != "E") else r)
+    if not count:
+        return "".join(out)
     try:
         bad = str(tx.bad_solution_count())
     except Exception:  # noqa: BLE001
@@ -172,24 +267,36 @@ def impl(op: str) -> str:
                 trace, _vmap, _vals, outcome = S.observe_checksol(tx, i)
                 res.append("%d/%d" % (1 if (outcome == "ok" and tx.is_solution_ok(i)) else 0, 1 if trace else 0))
             return "ok " + ",".join(res)
-        if k == "c06_hist":
-            coin, f, us = a[1], parse_fields(a[2]), parse_us(a[3])
-            tx = build(coin, f, us)
-            mp = list(range(len(tx.txs_in)))
-            signed = [(bytes(t.script), [bytes(w) for w in t.witness], None if (k0 >= len(us) or us[k0] is None) else us[k0][1])
-                      for k0, t in enumerate(tx.txs_in)]
-            res = []
+        if k in ("c06_hist", "c06_each"):
+            coin, f0, us, meta = a[1], parse_fields(a[2]), parse_us(a[3]), parse_meta(a[4])
+            signed = signed_info(coin, f0, us, meta)
             steps = [] if a[5] == "~" else a[5].split(";")
-            for cmd in [None] + steps:
-                if cmd is not None:
+
+            def masked(tx, mp):
+                exp = expected(coin, signed, txlib.fields_of(tx), S.us_of(tx), mp)
+                return {j for j, e in enumerate(exp) if e == "?"}
+            res = []
+            if k == "c06_hist":
+                tx = build(coin, f0, us)
+                mp = list(range(len(tx.txs_in)))
+                for cmd in [None] + steps:
+                    if cmd is not None:
+                        apply_step(coin, tx, mp, cmd)
+                    mask = masked(tx, mp)
+                    v = verdicts_of(tx, mask)
+                    v2 = verdicts_of(tx, mask)                       # asked twice on the same object
+                    v3 = verdicts_of(fresh_copy(coin, tx), mask)     # and on a fresh parse of its bytes
+                    if not (v == v2 == v3):
+                        v += "!STALE(%s,%s)" % (v2, v3)
+                    res.append(v)
+            else:
+                base = build(coin, f0, us)
+                res.append(verdicts_of(base, masked(base, list(range(len(base.txs_in))))))
+                for cmd in steps:
+                    tx = build(coin, f0, us)
+                    mp = list(range(len(tx.txs_in)))
                     apply_step(coin, tx, mp, cmd)
-                mask = undetermined(tx, mp, signed)
-                v = verdicts_of(tx, mask)
-                v2 = verdicts_of(tx, mask)                       # asked twice on the same object
-                v3 = verdicts_of(fresh_copy(coin, tx), mask)     # and on a fresh parse of its bytes
-                if not (v == v2 == v3):
-                    v += "!STALE(%s,%s)" % (v2, v3)
-                res.append(v)
+                    res.append(verdicts_of(tx, masked(tx, mp), count=False))
             return "ok " + ";".join(res)
         if k == "c06_guards":
             coin, f, us = a[1], parse_fields(a[2]), parse_us(a[3])
@@ -403,36 +510,30 @@ def oracle(op: str, out: str):
             if cell != "1/1":
                 return "input %d (%s) of a transaction signed by the library does not validate" % (i, kd)
         return None
-    if k == "c06_hist":
+    if k in ("c06_hist", "c06_each"):
         if not out.startswith("ok"):
             return "validation history raised " + out
         if "STALE" in out:
             return "repeating validation on the same object, or on a fresh object built from its bytes, gives a different verdict"
         coin, f0, us0, meta = a[1], parse_fields(a[2]), parse_us(a[3]), parse_meta(a[4])
         got = out[3:].split(";")
+        steps = [] if a[5] == "~" else a[5].split(";")
+        signed = signed_info(coin, f0, us0, meta)
         tx = build(coin, f0, us0)
         mp = list(range(len(tx.txs_in)))
-        steps = [] if a[5] == "~" else a[5].split(";")
-        signed = []
-        for k0 in range(len(f0[2])):
-            w, code, hts = meta[k0]
-            signed.append((f0[2][k0][2], f0[2][k0][4], None if us0[k0] is None else us0[k0][1], [ref_preimage(coin, f0, us0, w, code, k0, h) for h in hts]))
         for n, cmd in enumerate([None] + steps):
             if cmd is not None:
+                if k == "c06_each":
+                    tx = build(coin, f0, us0)
+                    mp = list(range(len(tx.txs_in)))
                 apply_step(coin, tx, mp, cmd)
             f, us = txlib.fields_of(tx), S.us_of(tx)
-            exp = []
-            for j in range(len(f[2])):
-                e = "0"
-                if mp[j] is not None and j < len(us) and us[j] is not None:
-                    sol, wit, spent, pres = signed[mp[j]]
-                    w, code, hts = meta[mp[j]]
-                    if not (f[2][j][2] == sol and list(f[2][j][4]) == list(wit) and us[j][1] == spent):
-                        e = "?"
-                    elif all(p is not None and p != "refused" and ref_preimage(coin, f, us, w, code, j, h) == p for h, p in zip(hts, pres)):
-                        e = "1"
-                exp.append(e)
-            want = "".join(exp) + "/" + ("?" if "?" in exp else str(exp.count("0")))
+            exp = expected(coin, signed, f, us, mp)
+            want = "".join(exp)
+            if k == "c06_hist" or cmd is None:
+                want += "/" + ("?" if "?" in exp else str(exp.count("0")))
+            if n >= len(got):
+                return "validation history returned %d answers for %d states" % (len(got), len(steps) + 1)
             if got[n] != want:
                 vec = got[n].split("/")[0]
                 for j, (g, e) in enumerate(zip(vec, exp)):
@@ -506,7 +607,7 @@ def oracle(op: str, out: str):
 
 def trivial(op: str) -> bool:
     a = op.split(" ")
-    return a[0] == "c06_hist" and a[5] == "~"
+    return a[0] in ("c06_hist", "c06_each") and a[5] == "~"
 
 
 def neighbours(op, rng):
@@ -515,19 +616,26 @@ def neighbours(op, rng):
         steps = a[5].split(";")
         for n in range(1, len(steps)):
             yield " ".join(a[:5] + [";".join(steps[:n])])
+    if a[0] == "c06_each" and a[5] != "~":
+        # every step of the table on its own, as a one-step history (with the repeat / fresh-object observations)
+        for cmd in a[5].split(";"):
+            yield " ".join(["c06_hist"] + a[1:5] + [cmd])
 
 
 def _known_coinbase(v):
     """the history edits the only input into the null outpoint: the transaction is then a 'coinbase' for pycoin"""
     op = str(v.get("input", ""))
     a = op.split(" ")
-    if a[0] != "c06_hist" or a[5] == "~":
+    if a[0] not in ("c06_hist", "c06_each") or a[5] == "~":
         return False
     try:
         coin, f0, us0 = a[1], parse_fields(a[2]), parse_us(a[3])
         tx = build(coin, f0, us0)
         mp = list(range(len(tx.txs_in)))
         for cmd in a[5].split(";"):
+            if a[0] == "c06_each":
+                tx = build(coin, f0, us0)
+                mp = list(range(len(tx.txs_in)))
             apply_step(coin, tx, mp, cmd)
             if tx.is_coinbase():
                 return True
@@ -561,7 +669,7 @@ def rand_step(rng, coin, tx, orig):
     """one mutation command for the current state (`orig` = fields of the signed state, to build reverting steps)"""
     n_in, n_out = len(tx.txs_in), len(tx.txs_out)
     fam = rng.choice(["ver", "lock", "seq", "seq", "pidx", "phash", "sol", "wit", "oval", "oval", "oscr", "delin", "insin", "swapin", "swapsol",
-                      "delout", "insout", "swapout", "us_none", "us_val", "us_scr", "usdrop", "revert", "nop"])
+                      "delout", "insout", "swapout", "us_none", "us_val", "us_scr", "usdrop", "revert", "nop", "uskey", "uskey", "usnop", "uspre"])
     i = rng.randrange(n_in) if n_in else 0
     j = rng.randrange(n_out) if n_out else 0
     if fam == "ver":
@@ -635,6 +743,10 @@ def rand_step(rng, coin, tx, orig):
         return "us:%d:%d,%s" % (i, u.coin_value, hx(bytes(s)))
     if fam == "usdrop" and len(tx.unspents) > 0:
         return "usdrop"
+    if fam in ("uskey", "usnop", "uspre") and i < len(tx.unspents) and tx.unspents[i] is not None:
+        if fam == "uskey":
+            return "uskey:%d:%d" % (i, rng.randrange(520)) if data_positions(bytes(tx.unspents[i].script)) else "nop"
+        return "%s:%d" % (fam, i)
     if fam == "revert":
         # put one field back to its signed value
         v, lock, ins, outs = orig
@@ -649,6 +761,35 @@ def rand_step(rng, coin, tx, orig):
             return "seq:%d:%d" % (i, ins[i][3])
     return "nop"
 
+
+def table_steps(tx):
+    """one single-field mutation per family and position: the deterministic table of the property's first sentence"""
+    n_in, n_out = len(tx.txs_in), len(tx.txs_out)
+    st = ["ver:%d" % (tx.version ^ 2), "lock:%d" % (tx.lock_time ^ 0x10000)]
+    for i, t in enumerate(tx.txs_in):
+        h = bytearray(t.previous_hash)
+        h[(5 * i + 1) % 32] ^= 0x40
+        st += ["phash:%d:%s" % (i, hx(bytes(h))), "pidx:%d:%d" % (i, t.previous_index ^ 4), "seq:%d:%d" % (i, t.sequence ^ 0x100)]
+    for j, o in enumerate(tx.txs_out):
+        sc = bytearray(o.script)
+        sc[-1] ^= 1
+        st += ["oval:%d:%d" % (j, o.coin_value + 1), "oscr:%d:%s" % (j, hx(bytes(sc)))]
+    new_in = "%s,1,-,4294967295,~" % ("ee" * 32)
+    st += ["insin:%d:%s" % (p, new_in) for p in sorted({0, n_in // 2, n_in})]
+    st += ["delin:%d" % i for i in range(n_in)]
+    st += ["swapin:%d:%d" % p for p in sorted({(0, 1), (1, n_in - 1), (n_in - 2, n_in - 1)}) if p[0] != p[1]]
+    st += ["insout:%d:777,51" % p for p in sorted({0, n_out})]
+    st += ["delout:%d" % j for j in range(n_out)]
+    st += ["swapout:%d:%d" % p for p in sorted({(0, 1), (n_out - 2, n_out - 1)}) if p[0] != p[1] and p[0] >= 0]
+    st += ["swapsol:%d:%d" % p for p in sorted({(0, 1), (n_in - 2, n_in - 1)}) if p[0] != p[1]]
+    for i, u in enumerate(tx.unspents):
+        st += ["us:%d:%d,%s" % (i, u.coin_value + 1, hx(u.script)), "uskey:%d:%d" % (i, 8 * i + 3), "usnop:%d" % i, "uspre:%d" % i,
+               "us:%d:none" % i]
+    st.append("usdrop")
+    return st
+
+
+TABLE_GROUPS = [["p2pkh", "p2pkh_u", "p2pk", "ms"], ["p2sh_ms", "p2wpkh", "p2wsh_ms", "p2sh_p2wpkh"]]
 
 KIND_SETS = [["p2pkh"], ["p2pkh", "p2pk"], ["p2pkh", "p2sh_ms", "p2pkh_u"], ["ms", "p2pkh"], ["p2wpkh"], ["p2wpkh", "p2pkh"],
              ["p2wsh_ms", "p2sh_p2wpkh", "p2pkh"], ["p2pkh", "p2wpkh", "p2sh_ms", "p2wsh_ms"]]
@@ -722,8 +863,26 @@ def gen(ctx, emit):
         names = sorted(n for n, _s, _e in S.puzzles(coin))
         for ht in (1, 3, 0x82):
             emit("c06_sigchecked %s %s %d" % (coin, ",".join(names), ht), "signature-checked")
-    # ---- histories
     HTS = [1, 2, 3, 0x81, 0x82, 0x83]
+    # ---- the table: every coin class (quick: Bitcoin, one fork-id class, Groestlcoin) x every hash type x every puzzle kind (two
+    # transactions of four inputs and three outputs: the last input has no output at its position) x one single-step mutation
+    # per family and position, each applied to the signed state on its own; the verdict of EVERY input is dictated
+    for coin in (COINS if ctx.thorough else [c for c in COINS if c in ("btc", "bch", "grs")]):
+        avail = {n for n, _s, _e in S.puzzles(coin)}
+        for ht in HTS:
+            for grp in TABLE_GROUPS:
+                ks = [k0 for k0 in grp if k0 in avail]
+                if len(ks) < 2:
+                    continue
+                tx = S.sign_tx(coin, ks, ht, n_out=len(ks) - 1, version=1, lock_time=0, sequences=[0xFFFFFFFE] * len(ks))
+                if tx.bad_solution_count() != 0:
+                    ctx.note("pycoin's own signature does not validate: %s %s 0x%x (table row skipped)" % (coin, ks, ht))
+                    continue
+                meta = meta_of(coin, tx)
+                if meta is None:
+                    continue
+                emit("c06_each %s %s %s %s %s" % (coin, txlib.dump_tx(tx), show_us(S.us_of(tx)), meta, ";".join(table_steps(tx))), "table")
+    # ---- histories
     per = ctx.n(2, 20)
     for coin in COINS:
         avail = {n for n, _s, _e in S.puzzles(coin)}
